@@ -1,4 +1,4 @@
-package c01
+package c18
 
 import (
 	"testing"
@@ -11,5 +11,5 @@ import (
 func TestMain(m *testing.M)   { gx.Main(m) }
 func TestWorker(t *testing.T) { gx.WorkerMain(t) }
 func TestCheck(t *testing.T) {
-	gx.RunCheck(t, "C01", prodrig.Scenarios("C01"), 50*time.Second, 14*time.Minute, prodrig.Assumptions)
+	gx.RunCheck(t, "C18", prodrig.Scenarios("C18"), 50*time.Second, 14*time.Minute, prodrig.Assumptions)
 }
